@@ -266,9 +266,11 @@ func (state *IntraAnalysisState) DoIndex(x *ssa.Index) {
 	transfer(state, x, x.X, x, "[*]", NonIndexMark)
 }
 
-// DoLookup analyzes lookups without indexing sensitivity
+// DoLookup analyzes lookups with indexing sensitivity: the marks of the map are relative to its elements (DoMapUpdate
+// prepends an indexing step to their access paths), the looked-up value must consume that step like DoIndex and DoRange
+// do. Otherwise the value carries an access path that starts with an indexing it does not have.
 func (state *IntraAnalysisState) DoLookup(x *ssa.Lookup) {
-	simpleTransfer(state, x, x.X, x)
+	transfer(state, x, x.X, x, "[*]", NonIndexMark)
 	simpleTransfer(state, x, x.Index, x)
 }
 
